@@ -251,6 +251,7 @@ Cases == CASE Family = "uni"  -> {k \in UniCases : InShard(k.x, k.w)}
            [] Family = "sort" -> SortCases
            [] Family = "chi"  -> ChiCases
            [] Family = "dom"  -> DomCases
+           [] OTHER -> {}                      \* families of DescriptiveAff.tla
 
 Rec(k) == CASE Family = "uni"  -> UniRec(k)
             [] Family = "ord"  -> OrdRec(k)
@@ -262,6 +263,7 @@ Rec(k) == CASE Family = "uni"  -> UniRec(k)
             [] Family = "sort" -> SortRec(k)
             [] Family = "chi"  -> ChiRec(k)
             [] Family = "dom"  -> DomRec(k)
+            [] OTHER -> k
 
 Init == c \in Cases
 Next == UNCHANGED c
